@@ -9,6 +9,19 @@ NOTE_COMMON = ("Trusted base: clang 14 parser/sema via libTooling (tools/ipqfact
                "computed from the current source of /repo only; nothing is executed. ")
 
 CLAIMS = {
+ "C01": dict(
+  technique="exact rational-function comparison of the log K(T,P) formula and of paired read-out functions + reader/writer slot agreement on the log K record + unit discipline at every k_calc call site",
+  text=("C01 as a whole is numerical and is NOT decided. Decided are the closed-form and table-agreement parts of three of its clauses: (a) 'the "
+        "equilibrium constant the database text prescribes at the solution temperature' - Phreeqc::k_calc, the one function that turns a stored "
+        "log K record into log K(T,P), equals logK_T0 - dH(298.15-T)/(ln10 R T 298.15) + A1 + A2 T + A3/T + A4 log10 T + A5/T^2 + A6 T^2 and the "
+        "pressure term -dV 1e-9 (P-Pref)/(ln10 R T) as an exact rational function (locals inlined, R and ln 10 recognised by value, LOG_10 checked to "
+        "be log(10.0)); every call of k_calc passes a Kelvin temperature (a Celsius quantity only as +273.15) and an atmosphere quantity times 101325; "
+        "every reader of -log_k / -delta_h / -analytical_expression data stores into the record slot k_calc reads for it, the six analytical "
+        "coefficients are consecutive enumerators filled in order; (b) 'SI = log IAP - log K' - each of the seven saturation-index computations "
+        "accumulates IAP as coef * log a (la or lm + lg) and reports IAP - lk; (c) read-out consistency - ACT = 10^LA and GAMMA = 10^LG branch by "
+        "branch, LA = lm + lg, SR = 10^SI, pH writers print -la(H+). NOT decided: mass action of every species at the reported solution, element "
+        "totals, charge balance, ionic strength, alkalinity (all properties of the numerical solution), reaction rewriting, delta_h unit conversion."),
+  note=NOTE_COMMON + "Comparison is by polynomial identity (engine/ratfun.py); algebraically equivalent rewrites pass (benign mutant kept). A partial claim labelled `other`."),
  "C02": dict(
   technique="kind coverage/coherence of the assemble (step), write-back (saver) and totalise (cxxSystem::totalize, entity totalize) drivers",
   text=("Deliberately narrow static claim about the skeleton that conservation rests on, not about conservation itself: (a) Phreeqc::step adds "
@@ -218,7 +231,6 @@ CLAIMS = {
 }
 
 NOT_APPLICABLE = {
- "C01": "quantifies over the numerical solution of the speciation equations for every composition/database; no clause is visible in code shape, and re-evaluating the database equations would be a computation, not a static analysis",
  "C03": "equilibrium end-state (SI = target, phase present/absent, site and mole-fraction sums) is the fixed point of an inequality-constrained Newton iteration; only its numeric outcome can be judged",
  "C15": "metamorphic equalities between pairs of runs; the unit-conversion routine could only be judged by evaluating it for each unit string, i.e. by executing it (symbolically), which this technique family excludes",
  "C18": "admissibility of each reported inverse model depends on the L1 solver's numeric output for each problem",
